@@ -3,12 +3,14 @@
 package main
 
 import (
+	"errors"
 	"fmt"
 	"regexp"
 	"sort"
 	"strings"
 
 	mc "github.com/ddddddO/gtree/verifmc"
+	"github.com/ddddddO/gtree/verifmc/mctx"
 
 	"verifharness/model"
 )
@@ -17,7 +19,8 @@ import (
 
 type c11Exec struct {
 	*DrvRun
-	full string // complete output of the operation without faults (for the cancel clause); "" if unknown
+	full       string // complete output of the operation without faults (for the cancel clause); "" if unknown
+	cleanInput bool   // the simple-mode run of the same driver without cancellation succeeds: only the cancel can fail
 }
 
 func (e *c11Exec) Outcome() string {
@@ -104,6 +107,13 @@ func (e *c11Exec) Check(o *mc.Outcome) []Viol {
 	e.Finish()
 	vs := endViolations("C11", o)
 	vs = append(vs, raceViolations("C11", o)...)
+	if (o.End() == "complete" || o.End() == "leak") && e.CancelSeen && e.Err != nil && e.cleanInput {
+		// nothing but the cancellation can have gone wrong (valid input, healthy reader / writer / callback / file
+		// system): the error must be the context's error
+		if !errors.Is(e.Err, mctx.Canceled) {
+			vs = append(vs, Viol{"C11|cancelled-but-error-is-not-the-contexts", fmt.Sprintf("driver %s: context cancelled before the call returned; returned %q, which is not context.Canceled", e.d, e.Err)})
+		}
+	}
 	if o.End() == "complete" || o.End() == "leak" {
 		if e.CancelSeen && e.Err == nil && e.full != "" {
 			complete := sameBlocks(e.Out, e.full)
@@ -125,9 +135,23 @@ func sameBlocks(got, want string) bool {
 
 func c11Scenario(name string, d *Drv, bound int, workers map[string]int, policies []int) *Scenario {
 	var full string
+	clean := false
 	return &Scenario{
 		Name: name, Prop: "C11", Workers: workers, Bound: bound, Policies: policies,
 		Prepare: func() {
+			// is the driver free of every fault but the cancellation? (the same call without massive and without cancel succeeds)
+			clean = false
+			if d.ReaderFailAfter < 0 && d.WriterFailAt == 0 && d.CbFailAt == 0 && d.FSFailAt == 0 {
+				ref := *d
+				ref.Simple, ref.Canceller, ref.PreCancel, ref.ReaderCancelAt, ref.NoYield = true, false, false, -1, true
+				run := ref.New()
+				func() {
+					defer func() { recover() }()
+					run.Body()
+					clean = run.Returned && run.Err == nil
+				}()
+				run.Finish()
+			}
 			// fault-free simple-mode output as the "complete output" reference of the cancel clause
 			if strings.HasPrefix(d.Op, "out-") || strings.HasPrefix(d.Op, "root:out-") {
 				ref := *d
@@ -143,7 +167,7 @@ func c11Scenario(name string, d *Drv, bound int, workers map[string]int, policie
 				}
 			}
 		},
-		New: func() Exec { return &c11Exec{DrvRun: d.New(), full: full} },
+		New: func() Exec { return &c11Exec{DrvRun: d.New(), full: full, cleanInput: clean} },
 	}
 }
 
